@@ -183,7 +183,19 @@ class SStr(str, metaclass=_Meta):
         return mks(SStr, cterms(o) + cterms(s), sraw(o) + sraw(s))
 
     def __mul__(s, n):
+        # CPython tries the right operand's nb_multiply (a user-defined __rmul__ on an int subclass) before the
+        # string's sequence repeat; a Python-level __mul__ here would otherwise pre-empt it
+        for k in type(n).__mro__:
+            if "_shadow_of" in k.__dict__ or k in (int, object):
+                break
+            if "__rmul__" in k.__dict__:
+                r = k.__dict__["__rmul__"](n, s)
+                if r is not NotImplemented:
+                    return r
+                break
         n = sym_index(n)
+        if n > 10_000_000:
+            raise MemoryError()
         return mks(SStr, cterms(s) * n, sraw(s) * n)
 
     __rmul__ = __mul__
@@ -330,6 +342,29 @@ class SStr(str, metaclass=_Meta):
             out.append(s[start:p])
             start = p + m
         out.append(s[start:])
+        return out
+
+    def splitlines(s, keepends=False):
+        """line boundaries as str.splitlines defines them, decided per character on the terms"""
+        if not s_is_sym(s):
+            return str.splitlines(s, keepends)
+        if keepends:
+            pin_str(s, "str.splitlines(keepends)")
+            return str.splitlines(sraw(s), True)
+        BOUNDS = (10, 11, 12, 13, 28, 29, 30, 0x85, 0x2028, 0x2029)
+        cs, raw = s._cs, sraw(s)
+        out, start, i, n = [], 0, 0, len(raw)
+        while i < n:
+            if branch(z3.Or([cs[i] == b for b in BOUNDS]), ord(raw[i]) in BOUNDS):
+                out.append(s[start:i])
+                if i + 1 < n and branch(z3.And(cs[i] == 13, cs[i + 1] == 10), raw[i] == "\r" and raw[i + 1] == "\n"):
+                    i += 1
+                start = i + 1
+            i += 1
+        if start < n:
+            out.append(s[start:])
+        expect = str.splitlines(raw)
+        assert [sraw(x) if isinstance(x, str) else x for x in out] == expect, (out, expect)
         return out
 
     def rsplit(s, sep=None, maxsplit=-1):
@@ -492,7 +527,7 @@ def _pinning(name):
 
 for _n in ("capitalize", "casefold", "center", "expandtabs", "format_map", "isalnum", "isalpha", "isascii",
            "isdecimal", "isidentifier", "islower", "isnumeric", "isprintable", "isspace", "istitle", "isupper",
-           "ljust", "rjust", "rfind", "rindex", "splitlines", "swapcase", "title", "translate", "zfill",
+           "ljust", "rjust", "rfind", "rindex", "swapcase", "title", "translate", "zfill",
            "removeprefix", "removesuffix"):
     if _n not in SStr.__dict__:
         setattr(SStr, _n, _pinning(_n))
